@@ -305,6 +305,36 @@ func run(r *ev.Run) {
 		}()
 	}
 	wg.Wait()
+	// options the statement does not name, in the client message and in the relay layers: the
+	// reply still matches (type, transaction id, client id, mirrored layers)
+	for _, t := range []byte{1, 3, 11} {
+		for depth := 0; depth <= 2; depth++ {
+			for i, x := range pkt.Extra6() {
+				m := pkt.Msg6{Type: t, Xid: [3]byte{0xab, 0xcf, t}, Opts: []pkt.Opt6{{Code: 1, Data: []byte{0, 3, 0, 1, 2, 0, 0, 0xaa, 0xbb, 0xcc}}, {Code: 8, Data: []byte{0, 0}}}}
+				inLayer := depth > 0 && i%3 == 2
+				if !inLayer {
+					if i%2 == 0 {
+						m.Opts = append([]pkt.Opt6{x}, m.Opts...)
+					} else {
+						m.Opts = append(m.Opts, x)
+					}
+				}
+				b := m.Bytes()
+				for k := depth - 1; k >= 0; k-- {
+					l := pkt.Relay6{Type: 12, Hop: byte(k), Link: addrs[1], Peer: addrs[2], Inner: b}
+					l.Opts = []pkt.Opt6{{Code: 18, Data: []byte(fmt.Sprintf("if-%d", k))}}
+					if inLayer && k == 0 && x.Code != 18 {
+						l.After = []pkt.Opt6{x}
+					}
+					b = l.Bytes()
+				}
+				if _, err := dhcpv6.FromBytes(b); err != nil {
+					continue // the codec rejects this payload for this code: dropped as unparseable
+				}
+				eval(r, Case{"empty", hex.EncodeToString(b), peers[0], 0, realIdx})
+			}
+		}
+	}
 	// sizes: replies far larger than any interface MTU are still replies (an Interface-ID or a
 	// client identifier of any length is mirrored), whatever the listener is bound to
 	for _, t := range []byte{1, 3, 11} {
